@@ -587,3 +587,65 @@ func ruleR10i(c *Ctx) {
 	}
 	c.floor("R10i", "block loop / tail switch pairs in the fingerprint hash", 1, pairs)
 }
+
+// R10j: placeholder names are normalised as the official algorithm does: a run of underscores collapses to
+// one. strings.Replace(s, "__", "_", -1) (old = new+new) is a single non-overlapping pass that only halves a
+// run ("___" becomes "__"), so names — and with them ids — diverge for such identifiers. The naming code
+// collapses runs with a pattern that matches the whole run.
+func ruleR10j(c *Ctx) {
+	p := c.pkg("soymsg")
+	fd := c.mustFunc("soymsg", "toUpperUnderscore")
+	if p == nil || fd == nil {
+		return
+	}
+	info := p.TypesInfo
+	nbad := 0
+	for _, d := range c.allFuncDecls("soymsg") {
+		ast.Inspect(d.Body, func(x ast.Node) bool {
+			call, ok := x.(*ast.CallExpr)
+			if !ok {
+				return true
+			}
+			cal := calleeFunc(call, info)
+			if cal == nil || cal.Pkg() == nil || cal.Pkg().Path() != "strings" || (cal.Name() != "Replace" && cal.Name() != "ReplaceAll") || len(call.Args) < 3 {
+				return true
+			}
+			o, n := info.Types[call.Args[1]].Value, info.Types[call.Args[2]].Value
+			if o == nil || n == nil || o.Kind() != constant.String || n.Kind() != constant.String {
+				return true
+			}
+			os, ns := constant.StringVal(o), constant.StringVal(n)
+			if ns != "" && os == ns+ns {
+				nbad++
+				c.bad("R10j", fmt.Sprintf("%s halves-runs#%d", c.declKey("soymsg", d), nbad), call.Pos(),
+					fmt.Sprintf("strings.%s(…, %q, %q) makes one non-overlapping pass: a run of three or more is only shortened, not collapsed, so the placeholder name (and the id computed from it) differs from the official one for such identifiers", cal.Name(), os, ns))
+			}
+			return true
+		})
+	}
+	// the run-collapsing pattern is present: a regexp with a + quantifier over the underscore, used in toUpperUnderscore
+	collapses := false
+	ast.Inspect(fd.Body, func(x ast.Node) bool {
+		call, ok := x.(*ast.CallExpr)
+		if !ok {
+			return true
+		}
+		se, ok := call.Fun.(*ast.SelectorExpr)
+		if !ok || !strings.HasPrefix(se.Sel.Name, "ReplaceAll") {
+			return true
+		}
+		if id, ok := ast.Unparen(se.X).(*ast.Ident); ok {
+			if init := c.pkgVarInit("soymsg", id.Name); init != nil {
+				ast.Inspect(init, func(y ast.Node) bool {
+					if bl, ok := y.(*ast.BasicLit); ok && strings.Contains(bl.Value, "__+") || ok && strings.Contains(bl.Value, "_{2,}") {
+						collapses = true
+					}
+					return true
+				})
+			}
+		}
+		return true
+	})
+	c.check(collapses, "R10j", "soymsg.toUpperUnderscore collapses-underscore-runs", fd.Pos(), "runs of underscores are collapsed by a pattern that matches the whole run",
+		"toUpperUnderscore no longer collapses runs of underscores with a pattern that matches a whole run: names for identifiers with three or more consecutive underscores differ from the official ones")
+}
